@@ -132,6 +132,42 @@ def gA_spec(inp, cnt, NA, k):
     return sv.div(sv.mul(sv.mul(2, V), cnt), sv.mul(sv.mul(NA, NA), shell))
 
 
+def match_sigmas(ctx, unit, out, engine_sigmas, specs):
+    """Sigma-terms are hash-consed per lambda-lifted body, but the lifted form depends on z3's argument ordering, so the
+    engine's term for e.g. sum_i A_i need not be the spec's term syntactically.  For every engine Sigma-application with the
+    sort and range of a spec term, find the spec term it equals: syntactically, else by proof (Sigma-extensionality, small
+    query).  Returns (pairs [(engine z3 term, spec z3 term)], goals [z3 equalities that were used], rest [unmatched engine terms])."""
+    from pyvc import solve
+    from pyvc.vc import _opts
+    pairs, goals, rest = [], [], []
+    assum = out.state.all_assumptions()
+    for e in engine_sigmas:
+        hit = None
+        for T in specs:
+            t = sv.znum(T)
+            if sv.is_conc(T) or sigma.sigma_def_of(t) is None or t.sort() != e.sort():
+                continue
+            if not (z3.simplify(t.arg(0) - e.arg(0)).eq(z3.IntVal(0)) and z3.simplify(t.arg(1) - e.arg(1)).eq(z3.IntVal(0))):
+                continue
+            if e.eq(t):
+                hit = t
+                break
+            v = solve.prove(assum, e == t, 4, _opts(unit.solver_opts, ctx))
+            if v.status == solve.PROVED:
+                hit = t
+                break
+        if hit is None:
+            rest.append(e)
+        else:
+            pairs.append((e, hit))
+            goals.append(e == hit)
+    return pairs, goals, rest
+
+
+def _conj(goals):
+    return z3.And(*goals) if goals else z3.BoolVal(True)
+
+
 GR_KINDS = {
     # kind: (conditiontype argument, has gA_norm)
     "bool": (None, False), "float": (None, True), "complex": (None, False),
@@ -207,9 +243,9 @@ class CondGr(Unit):
         inp["NA"] = NA
         if GR_KINDS.get(kind, (None, False))[1] and kind != "ones":
             # the normalised variant is defined when A is not constant: <A^2> != <A>^2
-            mean = sv.div(Sum(0, N, lambda i: el(i)), N)
-            msq = sv.div(Sum(0, N, lambda i: sv.mul(el(i), el(i))), N)
-            inp["mean"], inp["msq"] = mean, msq
+            sumA, sumA2 = Sum(0, N, lambda i: el(i)), Sum(0, N, lambda i: sv.mul(el(i), el(i)))
+            mean, msq = sv.div(sumA, N), sv.div(sumA2, N)
+            inp["mean"], inp["msq"], inp["sumA"], inp["sumA2"] = mean, msq, sumA, sumA2
             ctx.assume(sv.cmp("!=", msq, sv.mul(mean, mean)))
         return [snap, cond], {"conditiontype": ct, "ppp": ppp, "rdelta": rd}, inp
 
@@ -220,11 +256,13 @@ class CondGr(Unit):
         names = ["columns", "rows=int(Lmin/2/rdelta)", "r=bin-centre", "bin-edges=k*rdelta", "gr:count", "gr:normalisation",
                  "gA:count", "gA:normalisation", "div0"]
         if kind == "float":
-            names += ["gA_norm"]
+            names += ["gA_norm:<A>,<A^2>", "gA_norm"]
+        if kind in BOOL_KINDS:
+            names += ["N_A=number-selected"]
         if kind.startswith("species"):
             names += ["reduction:count=cnt_aa(C03)", "reduction:gA=g_aa(C03)"]
         if kind in ("alltrue", "ones"):
-            names += ["reduction:count=cnt_total(C03)", "reduction:gA=g_total(C03)", "reduction:N_A=N", "reduction:gA=gr"]
+            names += ["reduction:count=cnt_total(C03)", "reduction:gA=g_total(C03)", "reduction:N_A=N", "reduction:cnt_total(C03)=cnt_1", "reduction:gA=gr"]
         return names
 
     def may_only_raise(self, case):
@@ -265,8 +303,13 @@ class CondGr(Unit):
         el = inp["el"]
         for name, w, na in (("gr", None, N), ("gA", (lambda i, j: weight(kind, el, i, j, m)), NA)):
             v = c[name].get((k,))
-            na_terms = [] if sv.is_conc(na) or na is N else [sv.zr(na) if False else sv.znum(na)]
-            sig = [s for s in outer_sigmas(sv.zr(v)) if not any(s.eq(t) for t in na_terms)]
+            sig = outer_sigmas(sv.zr(v))
+            if name == "gA" and na is not N:
+                # the selected count as the code computes it = number of selected particles; from here on written as the spec term
+                prs, gls, sig = match_sigmas(ctx, self, out, sig, [na])
+                yield "N_A=number-selected", (_conj(gls) if len(prs) == 1 else False)
+                if prs:
+                    v = sv.SV(z3.substitute(sv.zr(v), *prs))
             if len(sig) != 1:
                 yield f"{name}:count", False
                 yield f"{name}:normalisation", False
@@ -299,8 +342,8 @@ class CondGr(Unit):
                     # N_A = N (above); remaining identity with the common count generalised
                     vgr = c["gr"].get((k,))
                     sgr = outer_sigmas(sv.zr(vgr))
-                    same_spec = sv.znum(cnt03).eq(sv.znum(cntw_spec(inp, None, k, Bt)))
-                    if len(sgr) == 1 and same_spec:
+                    yield "reduction:cnt_total(C03)=cnt_1", gen(sv.implies(inr, sv.cmp("==", cnt03, cntw_spec(inp, None, k, Bt))))
+                    if len(sgr) == 1:
                         Ri = z3.Int("R_count")
                         g3 = sv.zb(sv.implies(inr, sv.cmp("==", v, vgr)))
                         pairs = [(t, Ri if z3.is_int(t) else z3.ToReal(Ri)) for t in (sig[0], sgr[0])]
@@ -316,6 +359,12 @@ class CondGr(Unit):
         if kind == "float":
             v = c["gA_norm"].get((k,))
             gA = c["gA"].get((k,))
+            inA = {t.get_id() for t in outer_sigmas(sv.zr(gA))}
+            sg = [t for t in outer_sigmas(sv.zr(v)) if t.get_id() not in inA]
+            prs, gls, rest = match_sigmas(ctx, self, out, sg, [inp["sumA"], inp["sumA2"]])
+            yield "gA_norm:<A>,<A^2>", (_conj(gls) if not rest and len(prs) == 2 else False)
+            if prs:
+                v = sv.SV(z3.substitute(sv.zr(v), *prs))
             mean, msq = inp["mean"], inp["msq"]
             want = sv.div(sv.sub(gA, sv.mul(mean, mean)), sv.sub(msq, sv.mul(mean, mean)))
             yield "gA_norm", gen(sv.implies(inr, sv.cmp("==", v, want))), {"ring_only": True}
@@ -557,6 +606,8 @@ class CondSq(Unit):
         for f in self._fft_cols(kind, d):
             names += [f"{f}:sum=sum_i-A_i-exp(-iq.r_i)", f"{f}:normalisation=1/sqrt(N_A)"]
         names += ["Sq=|FFT|^2", "Sq=|sum|^2/N_A", "average:columns", "average:mean-of-Sq-over-equal-rounded-|q|"]
+        if kind in SQ_BOOL:
+            names += ["N_A=number-selected"]
         if kind in ("species1", "alltrue", "ones"):
             names += ["reduction:Sq=C04-density-mode-spec"]
         if kind == "alltrue":
@@ -598,6 +649,19 @@ class CondSq(Unit):
             yield "q=|q-vector|", sv.implies(inr, sv.cmp("==", sv.SV(qarg.arg(0)), qq)), {"ring_only": True}
         else:
             yield "q=|q-vector|", sv.implies(inr, sv.cmp("==", raw["q"][0], sv.sqrt(qq)))
+        # the selected count as the code computes it = number of selected particles; from here on written as the spec term
+        if NA is not N:
+            cand = []
+            for un in raw.values():
+                for u in un:
+                    for t in outer_sigmas(sv.zr(u)):
+                        for a in [t] + list(t.children()):
+                            if z3.is_int(a) and sigma.sigma_def_of(a) is not None and all(not a.eq(x) for x in cand):
+                                cand.append(a)
+            prs, gls, rest = match_sigmas(ctx, self, out, cand, [NA])
+            yield "N_A=number-selected", (_conj(gls) if prs and not rest else False)
+            if prs:
+                raw = {nm: [sv.SV(z3.substitute(sv.zr(u), *prs)) for u in un] for nm, un in raw.items()}
         # Fourier sums
         sums = []
         rootNA = sv.sqrt(sv.to_real(NA))
@@ -673,7 +737,115 @@ class CondSq(Unit):
             yield "reduction:Sq=C04-density-mode-spec", goal
 
     def replay(self, case, clause, model, seed):
-        return {"ran": False, "failed": False}
+        d, kind = self._parse(case)
+        return _replay_csq(d, kind, clause, model, seed)
+
+
+def _replay_csq(d, kind, clause, model, seed):
+    """real conditional_sq on seeded configurations / integer wave-vector lists against the direct evaluation of
+    |sum_i A_i exp(-i q.r_i)|^2 / N_A and the per-|q| mean"""
+    import importlib
+    import logging
+
+    import numpy as np
+    logging.disable(logging.CRITICAL)
+    Sm = importlib.import_module(MOD_SQ)
+    RUm = importlib.import_module("PyMatterSim.reader.reader_utils")
+    rng = np.random.default_rng(seed + 77 * d + sum(map(ord, kind)))
+    tried = 0
+    for trial in range(12):
+        N = int(rng.integers(1, 14)) if trial else 1
+        L = rng.uniform(3.0, 6.0, size=d)
+        if trial % 3 == 0:
+            L[:] = L[0]                      # cubic box: several vectors share |q|
+        pos = rng.uniform(-1, 1, size=(N, d)) * L
+        types = np.array([1 + (i % 2) for i in range(N)])
+        rng.shuffle(types)
+        nq = int(rng.integers(1, 9))
+        qv = rng.integers(-3, 4, size=(nq, d))
+        if trial % 3 == 0 and nq >= 2:
+            qv[1] = qv[0][::-1]              # same modulus, different direction
+        if kind == "bool":
+            cond = rng.uniform(size=N) < 0.6
+            if not cond.any():
+                cond[0] = True
+        elif kind == "species1":
+            cond = types == 1
+            if not cond.any():
+                continue
+        elif kind == "alltrue":
+            cond = np.ones(N, dtype=bool)
+        elif kind == "ones":
+            cond = np.ones(N)
+        elif kind == "float":
+            cond = rng.normal(size=N)
+        elif kind == "complex":
+            cond = rng.normal(size=N) + 1j * rng.normal(size=N)
+        elif kind == "vector":
+            cond = rng.normal(size=(N, d))
+        elif kind == "cvector":
+            cond = rng.normal(size=(N, d)) + 1j * rng.normal(size=(N, d))
+        snap = RUm.SingleSnapshot(timestep=0, nparticle=N, particle_type=types.copy(), positions=pos.copy(), boxlength=L.copy(),
+                                  boxbounds=np.column_stack([np.zeros(d), L]), realbounds=np.column_stack([np.zeros(d), L]), hmatrix=np.diag(L))
+        inputs = {"d": d, "kind": kind, "N": N, "boxlength": L.tolist(), "positions": pos.tolist(), "qvector": qv.tolist(),
+                  "condition": [str(x) for x in np.asarray(cond).ravel()]}
+        try:
+            import warnings
+            with warnings.catch_warnings():
+                warnings.simplefilter("ignore")
+                res, ave = Sm.conditional_sq(snap, qv.copy(), cond.copy())
+        except Exception as e:
+            return {"ran": True, "failed": True, "detail": f"raises {type(e).__name__}: {e}", "inputs": inputs, "searched": tried}
+        tried += 1
+        q = 2 * np.pi * qv / L[np.newaxis, :]
+        Aarr = cond.astype(float) if cond.dtype == bool else cond
+        NA = int(cond.sum()) if cond.dtype == bool else N
+        ph = np.exp(-1j * (q @ pos.T))                       # (nq, N)
+        F = (ph @ Aarr) / np.sqrt(NA)                        # (nq,) or (nq, d)
+        Sq = (np.abs(F) ** 2).sum(axis=1) if F.ndim == 2 else np.abs(F) ** 2
+        fcols = [f"FFT{c}" for c in range(d)] if kind in ("vector", "cvector") else ["FFT"]
+        want_cols = [f"q{c}" for c in range(d)] + ["q", "Sq"] + fcols
+        if list(res.columns) != want_cols or len(res) != nq:
+            return {"ran": True, "failed": True, "detail": f"columns {list(res.columns)} / {len(res)} rows, expected {want_cols} / {nq}", "inputs": inputs}
+
+        def bad(got, want, what):
+            got, want = np.asarray(got), np.asarray(want)
+            if not np.allclose(got, want, rtol=1e-9, atol=2e-8):
+                kb = int(np.argmax(np.abs(got - want)))
+                return {"ran": True, "failed": True, "searched": tried, "inputs": inputs,
+                        "detail": f"{what}, row {kb}: got {got[kb]!r}, expected {want[kb]!r}"}
+            return None
+        for cc in range(d):
+            r = bad(res[f"q{cc}"].values, q[:, cc], f"column q{cc} (2 pi n / L)")
+            if r:
+                return r
+        r = bad(res["q"].values, np.linalg.norm(q, axis=1), "column q (|q|)") or bad(res["Sq"].values, Sq, "column Sq (|sum_i A_i exp(-iq.r_i)|^2/N_A)")
+        if r:
+            return r
+        for ci, f in enumerate(fcols):
+            r = bad(res[f].values, F[:, ci] if F.ndim == 2 else F, f"column {f} (sum_i A_i exp(-iq.r_i)/sqrt(N_A))")
+            if r:
+                return r
+        if not np.allclose(res["Sq"].values, np.round(res["Sq"].values, 8), atol=1e-15):
+            return {"ran": True, "failed": True, "searched": tried, "inputs": inputs, "detail": "Sq not rounded to 8 decimals"}
+        # per-|q| mean of the table's own (rounded) values
+        keys = np.unique(res["q"].values)
+        means = np.array([res["Sq"].values[res["q"].values == kk].mean() for kk in keys])
+        if list(ave.columns) != ["q", "Sq"] or len(ave) != len(keys):
+            return {"ran": True, "failed": True, "searched": tried, "inputs": inputs, "detail": f"average table: columns {list(ave.columns)}, {len(ave)} rows, expected ['q','Sq'], {len(keys)}"}
+        r = bad(ave["q"].values, keys, "average table keys") or bad(ave["Sq"].values, means, "average table: mean of Sq over equal rounded |q|")
+        if r:
+            return r
+        if kind in ("species1", "alltrue") and len(set(types.tolist())) == 2:
+            # the same numbers from the real sq class (binary system, one frame), before its 6-decimal rounding
+            S = RUm.Snapshots(nsnapshots=1, snapshots=[snap])
+            ref = Sm.sq(S, qvector=qv.copy()).getresults()
+            col = "Sq11" if kind == "species1" else "Sq"
+            keys6 = np.unique(np.round(np.linalg.norm(q, axis=1), 6))
+            m6 = np.array([np.round(Sq, 6)[np.round(np.linalg.norm(q, axis=1), 6) == kk].mean() for kk in keys6])
+            if len(ref) == len(keys6) and not np.allclose(ref[col].values, m6, atol=2e-6):
+                return {"ran": True, "failed": True, "searched": tried, "inputs": inputs, "detail": f"differs from sq(...).getresults()[{col!r}]"}
+    return {"ran": True, "failed": False, "searched": tried}
 
 
 UNITS = [CondGr(), CondSq()]
